@@ -280,6 +280,10 @@ def c15_r3(ctx):
     except NarrowedChar as e:
         ctx.viol((dec.id, "character-narrowed"), "the decoder classifies `c as u8/u16` instead of the character: code points that differ from an alphabet character only above the kept bits are accepted as that digit (foreign characters decode)", str(e))
         return
+    if not any(v is not None for v in table.values()):
+        # digit values computed (`c as u32 - 'a' as u32 + 10`) rather than listed: the evaluation
+        # follows constants only
+        raise AnalysisError("idiom not recognised: the digit values of %s are computed from the character, not constants per character class" % dec.id)
     for ch, val in sorted(table.items()):
         ctx.inst("decoder %r -> %d" % (chr(ch), val))
     bad = []
@@ -323,7 +327,9 @@ def c15_r3(ctx):
                 pad = s["rv"]["op"].get("bits")
                 enc_len = s["rv"]["n"]
     ctx.inst("padding / length")
-    if pad is None or int(pad) != A[0]:
+    if pad is None:
+        raise AnalysisError("idiom not recognised: the padding byte of %s is not a literal" % enc.id)
+    if int(pad) != A[0]:
         ctx.viol((enc.id, "padding-not-zero-digit"), "the buffer is padded with byte %s, not with the zero digit %r: short values would not decode back" % (pad, chr(A[0])), enc.where(0))
     dec_len = None
     for bb in dec.live:
